@@ -150,8 +150,12 @@ class AnsiDecoder:
             elif sgr:
                 # Translate in to semi-colon separated codes
                 # Ignore invalid codes, because we want to be lenient
+                # Four significant digits are enough to tell a code is out of range
+                # (int() refuses digit strings longer than sys.int_max_str_digits)
                 codes = [
-                    min(255, int(_code)) for _code in sgr.split(";") if _code.isdecimal()
+                    min(255, int(_code.lstrip("0")[:4] or "0"))
+                    for _code in sgr.split(";")
+                    if _code.isdecimal()
                 ]
                 iter_codes = iter(codes)
                 for code in iter_codes:
